@@ -138,7 +138,7 @@ def rule_addr(ctx):
     b = prog.one('script::eval_from_bytes_bitcoin')
     outs = outcomes(b)
     net = 'phi(Network::Bitcoin{} | Network::Testnet{})'
-    lib = 'phi(Option::None{} | Option::Some{0: format(new(b"\\u00c0\\u0000", [new_display(from_script(%s, %s)?)]))})' % (S, net)
+    lib = 'phi(Option::None{} | Option::Some{0: from_script(%s, %s)?})' % (S, net)
     for bb, addr, variant, pat, guards in outs:
         a = canon(addr)
         if variant in ('OpReturn', 'Unspendable'):
@@ -150,15 +150,19 @@ def rule_addr(ctx):
                       bad_detail='%s address = %s; expected Display of Address::from_script(script, network)' % (variant, a))
     # definitions of the library address: Some(..) only on the Ok edge, None on the Err edge
     for l, ds in b.defs().items():
-        if b.local_ty(l) == 'std::option::Option<std::string::String>' and len(ds) == 2:
+        if b.local_ty(l) == 'std::option::Option<std::string::String>' and len(ds) >= 2:
+            some, none = [], []
+            fs = 'from_script(%s, %s)' % (S, net)
             for df in ds:
                 v = canon(b.rvalue_expr(df[3])) if df[0] == 'assign' else canon(b.call_expr(df[2]))
                 g = util.guards_at(b, df[1])
-                fs = 'from_script(%s, %s)' % (S, net)
                 if v.startswith('Option::Some'):
-                    ctx.check('addr', 'some-on-ok', '%s is Ok' % fs in g, (b, df[1]), 'address Some(..) under Ok')
+                    some.append(('%s is Ok' % fs in g, df[1]))
                 elif v == 'Option::None{}':
-                    ctx.check('addr', 'none-on-err', '%s is Err' % fs in g, (b, df[1]), 'address None under Err')
+                    none.append(('%s is Err' % fs in g, df[1]))
+            if some and none and len(some) + len(none) == len(ds):
+                ctx.check('addr', 'some-on-ok', all(x[0] for x in some), (b, some[0][1]), 'address Some(..) only under Ok')
+                ctx.check('addr', 'none-on-err', all(x[0] for x in none), (b, none[0][1]), 'address None only under Err (%d site(s))' % len(none))
     # p2pk_to_string
     p = prog.one('script::p2pk_to_string')
     ctx.touch(p)
@@ -187,9 +191,17 @@ def rule_unspendable(ctx):
     cls = 'classify(first(a1)?, ClassifyContext::Legacy{})'
     acc = set()
     rej_empty = False
+    outs = []
     for df in u.defs().get(0, []):
-        v = u.rvalue_expr(df[3]) if df[0] == 'assign' else u.call_expr(df[2])
-        g = util.guards_at(u, df[1])
+        alts = None
+        if df[0] == 'assign' and df[3]['k'] == 'use':
+            alts = util.value_alternatives(u, df[3]['op'])
+        if alts:
+            here = set(util.guards_at(u, df[1]))
+            outs.extend((e, sorted(here | set(util.guards_at(u, bb)))) for e, bb in alts)
+        else:
+            outs.append((u.rvalue_expr(df[3]) if df[0] == 'assign' else u.call_expr(df[2]), util.guards_at(u, df[1])))
+    for v, g in outs:
         c = canon(v)
         if c == 'false' and g == ['first(a1) is None']:
             rej_empty = True
@@ -198,6 +210,11 @@ def rule_unspendable(ctx):
                 m = re.match(re.escape(cls) + r' == Class::(\w+)\{\}', x)
                 if m:
                     acc.add(m.group(1))
+                m = re.match(re.escape(cls) + r' is ([\w|]+)$', x)
+                if m:
+                    acc.update(m.group(1).split('|'))
+        elif c == 'false':
+            pass
         else:
             vv = peel(v, calls=False)
             if vv[0] == 'call' and mir.method_name(vv[1]) == 'eq' and canon(vv[2][0]) == cls:
